@@ -111,3 +111,8 @@ Theorem C15_offered_example :
   root_fields ex_schema = map bs ["input"; "s1"; "s2"; "s3"] /\ blocked_root_fields ex_schema (bs "s3") = Ok (map bs ["s3"; "s2"]) /\ offered_root ex_schema (bs "s3") = Ok (Some (map bs ["input"; "s1"])) /\ map clean_field_name (filter (fun fld : str => negb (str_eqb fld BP_Dependencies) && negb (str_mem (strip_quotes fld) (map bs ["s3"; "s2"]))) (field_texts ex_schema)) = map bs ["input"; "s1"; "s2"].
 Proof. exact Mpath.Proofs.C15b.C15_offered_example. Qed.
 Print Assumptions C15_offered_example.
+
+Theorem C15_offered_quoted_example :
+  field_texts ex_schema_quoted = [bs "input"; dquote ++ bs "s-1" ++ dquote; dquote ++ bs "s-2" ++ dquote ++ bs "?"; dquote ++ bs "s-3" ++ dquote ++ bs "!"] /\ root_fields ex_schema_quoted = map bs ["input"; "s-1"; "s-2"; "s-3"] /\ blocked_root_fields ex_schema_quoted (bs "s-3") = Ok (map bs ["s-3"; "s-2"]) /\ offered_root ex_schema_quoted (bs "s-3") = Ok (Some (map bs ["input"; "s-1"])).
+Proof. exact Mpath.Proofs.C15b.C15_offered_quoted_example. Qed.
+Print Assumptions C15_offered_quoted_example.
